@@ -129,8 +129,6 @@ def judge(chk, sc, o):
         chk.violation('timeout_fires', {'scenario': sc}, {'outcome': last.get('outcome'), 'exc': last.get('exc')},
                       f'{exp} blocking {sc["block"]}s with timeout {t}s must raise TimeoutError', input_class='timeout_fires_' + exp)
         return
-    if exp not in ((last.get('exc') or {}).get('args') or ''):
-        chk.violation('timeout_names_function', {'scenario': sc}, last.get('exc'), f'TimeoutError names {exp}', input_class='timeout_names')
     # latency: first overrunning function started at t_start; the call must have raised by t_start + t + scan period + shutdown slack
     starts = [c[6] for c in o.get('calls', []) if c[0] == len(o['ops']) - 1 and c[7] is None]
     if starts:
